@@ -475,6 +475,38 @@ PROPS["C20"] = dict(
          "engine explores is a legal one).",
 )
 
+PROPS["C14"] = dict(
+    _lt,
+    runs={
+        "quick": [
+            dict(harness="VerifHarness_C14_replay", reach=["dirty", "clean", "restored", "restore-failed", "replayed"]),
+            dict(harness="VerifHarness_C14_normalize", reach=["dirty", "clean", "restored", "restore-failed", "normalized"]),
+        ],
+        "thorough": [
+            dict(harness="VerifHarness_C14_replay3", reach=["dirty", "clean", "restored", "restore-failed", "replayed"]),
+            dict(harness="VerifHarness_C14_normalize", reach=["dirty", "clean", "restored", "restore-failed", "normalized"]),
+        ],
+    },
+    bounds={
+        "quick": "dev database holding 0..2 user tables; Executor.Replay over directories of 1..2 files x 2 statements, and DevDriver.NormalizeRealm / "
+                 "NormalizeSchema of 1..2 tables; the index of the failing dev-database operation (inspection or statement, including the restore's own "
+                 "statements; or none) is a symbolic integer",
+        "thorough": "same with directories of up to 3 files",
+    },
+    assumptions=[
+        "model dev database = table count + log of statements (harness/sqlite/zz_verif_c14.go); the real sqlite.Driver.Snapshot / CheckClean decision "
+        "logic runs on a modelled InspectRealm (a real SQLite reports one schema 'main'; attached databases are outside)",
+        "a failing operation has no effect on the dev database",
+    ],
+    outside="what a real SQLite InspectRealm can see (the community build reports no views or triggers, so a dev database holding only a view is not "
+            "recognised as dirty: needs the real engine), the VACUUM-based restore itself, MySQL/PostgreSQL snapshot code, DevLoader.LoadChanges and the "
+            "--dev-url wiring of each CLI command (cmd/atlas module)",
+    claim="For every initial dev state and every failing operation within the bounds: a non-empty dev database is refused and no statement at all is run on "
+          "it; otherwise the restore is attempted on every exit path, nothing runs after it started, a completed restore leaves the database empty, a "
+          "failing restore is reported, and replaying never writes to the directory.",
+    note="Bounded; environment model as above. Trusted: engine, z3.",
+)
+
 NOT_APPLICABLE = {
     "C01": "needs a real SQLite engine executing the planned SQL and pragma-based inspection; neither cgo code nor SQLite's DDL "
            "semantics can be encoded by an SSA-level symbolic executor, and a hand-written catalogue model would verify the model, not Atlas "
